@@ -409,6 +409,7 @@ type observer struct {
 	// Reset handler (some handlers drain Top before the first Reset hook), so
 	// they are judged at the end of the tick.
 	suspects []suspect
+	tickAcc  int // requests moved to `outstanding` during the current agent tick
 
 	events int
 	budget int
@@ -505,7 +506,10 @@ func (o *observer) land(c *ctlInfo) {
 		return
 	}
 	c.landed = true
-	c.inflight = len(o.outstanding)
+	// Control runs before the data path inside a tick, so anything taken from
+	// Top earlier in this same tick was taken by this verb's own handler (a
+	// Reset draining the port), not accepted as work.
+	c.inflight = len(o.outstanding) - o.tickAcc
 }
 
 func (o *observer) killOutstanding() {
@@ -592,7 +596,7 @@ func (o *observer) onCtrlPort(ctx hooking.HookCtx) {
 func (o *observer) onAck(rsp memcontrolprotocol.Rsp) {
 	c := o.ctlByID[rsp.RspTo]
 	if c == nil {
-		o.fail("ctl-rsp-unknown-rspto", "control response %+v answers no request", rsp)
+		o.fail("ctl-rsp-unknown-rspto", "control response %s (RspTo=%d) answers no request of the driver", rspText(rsp), rsp.RspTo)
 		return
 	}
 	if c.acked {
@@ -623,19 +627,19 @@ func (o *observer) onAck(rsp memcontrolprotocol.Rsp) {
 	switch {
 	case !supported:
 		if rsp.Success || rsp.Error != memcontrolprotocol.ErrUnsupported {
-			o.fail("unsupported-verb-not-refused:"+verbName[c.verb], "step %d: unsupported %s answered %+v", c.step, verbName[c.verb], rsp)
+			o.fail("unsupported-verb-not-refused:"+verbName[c.verb], "step %d: unsupported %s answered %s", c.step, verbName[c.verb], rspText(rsp))
 			return
 		}
 		o.cls["refused-unsupported"]++
 	case (c.verb == vInvalidate || c.verb == vFlush) && !o.modelPaused:
 		if rsp.Success || rsp.Error != memcontrolprotocol.ErrMustBePausedOrDrained {
-			o.fail("illegal-"+verbName[c.verb]+"-while-enabled-not-refused", "step %d: %s while enabled answered %+v", c.step, verbName[c.verb], rsp)
+			o.fail("illegal-"+verbName[c.verb]+"-while-enabled-not-refused", "step %d: %s while enabled answered %s", c.step, verbName[c.verb], rspText(rsp))
 			return
 		}
 		o.cls["refused-illegal"]++
 	default:
 		if !rsp.Success {
-			o.fail("legal-verb-failed:"+verbName[c.verb], "step %d: %s answered %+v", c.step, verbName[c.verb], rsp)
+			o.fail("legal-verb-failed:"+verbName[c.verb], "step %d: %s answered %s", c.step, verbName[c.verb], rspText(rsp))
 			return
 		}
 		if c.verb == vInvalidate || c.verb == vFlush {
@@ -685,6 +689,10 @@ func (o *observer) onAck(rsp memcontrolprotocol.Rsp) {
 	}
 }
 
+func rspText(r memcontrolprotocol.Rsp) string {
+	return fmt.Sprintf("{Command:%d Success:%v Error:%q}", r.Command, r.Success, r.Error)
+}
+
 func (o *observer) outstandingSteps() []int {
 	var s []int
 	for _, r := range o.outstanding {
@@ -699,6 +707,7 @@ func (o *observer) outstandingSteps() []int {
 // state a few lines later).
 func (o *observer) afterAgentTick() {
 	o.resetTick = false
+	o.tickAcc = 0
 	if len(o.suspects) > 0 && o.viol == nil {
 		x := o.suspects[0]
 		o.soft("accepted-new-traffic-while-"+x.what, "the request of step %d was taken from the Top port while the agent was %s (no Reset in that tick)", x.r.step, x.what)
@@ -778,6 +787,7 @@ func (o *observer) onTopPort(ctx hooking.HookCtx) {
 		default:
 			r.state = rAccepted
 			o.outstanding[r.id] = r
+			o.tickAcc++
 			switch {
 			case o.window:
 				o.suspects = append(o.suspects, suspect{r, "paused"})
@@ -989,7 +999,10 @@ const c18Rule = "agent drawn uniformly from the 12 memory agents; fixture = agen
 	"(ideal memory controller / MMU with drawn latency) on a serial engine with one direct connection; knobs: internal latency 0..5 (TLB >= 2), " +
 	"lower latency 0..12, width 1..4, Top buffer {1,2,4,8}, Control buffer {1,2,4}, variant 0..5; history 5..60 steps of " +
 	"{control verb with filters, data request over a 12-slot pool, idle gap 0..120 cycles, response-drain stall}; verbs are issued without waiting for acks. " +
-	"Oracle from hooks on the agent's own ports and its exported State (CONTROL_PROTOCOL.md). " +
+	"Oracle from hooks on the agent's own ports and its exported State (CONTROL_PROTOCOL.md): one in-order response per verb with its Command/RspTo and the Success/Error the verb sequence dictates; " +
+	"no Top response and no Top intake inside a paused window (Pause/Drain/Flush ack .. dequeue of Enable/Reset/Drain/Flush), no Top intake while a Drain is pending; Drain ack => accepted requests all answered, state paused, documented quiescence; " +
+	"Reset ack => enabled, quiescent, wiped requests never answered; after a closing Enable every live request is answered; Run returns with every verb answered. " +
+	"Listed findings: Reset is preceded by a Drain for writethrough/datamover, the control link is never stalled for tlb/mmucache (counted as excluded); the other listed clauses are stepped over and counted. " +
 	"Non-trivial: a Pause/Drain/Reset landed with >=1 accepted-unanswered request, or a verb waited behind a pending Drain, or traffic was delivered inside a paused window."
 
 func runC18(s *kit.Session, f kit.Failer, c c18Case) {
@@ -1011,9 +1024,7 @@ func runC18(s *kit.Session, f kit.Failer, c c18Case) {
 	}
 	sort.Strings(keys)
 	for _, k := range keys {
-		if !strings.Contains(k, "(noted)") || true {
-			classes = append(classes, c.Agent+":"+k)
-		}
+		classes = append(classes, c.Agent+":"+k)
 	}
 	if out.nontriv {
 		classes = append(classes, c.Agent+":nontrivial")
@@ -1140,7 +1151,7 @@ func TestC18Known_WriteThroughResetInflight(t *testing.T) {
 // only looks for write acknowledgements: it never finishes.
 func TestC18Known_DataMoverResetThenOppositeMove(t *testing.T) {
 	c18Known(t, "datamover-reset-opposite-move", sigDMResetHang, c18Case{Agent: "datamover",
-		Cfg: c18Cfg{Lat: 3, LowLat: 3, Width: 1, TopBuf: 1, CtlBuf: 1},
+		Cfg:   c18Cfg{Lat: 3, LowLat: 3, Width: 1, TopBuf: 1, CtlBuf: 1},
 		Steps: []c18Step{{K: "dat", N: 2}, {K: "ctl", Gap: 4, Verb: vReset}, {K: "dat", W: true, N: 1, Gap: 1}}})
 }
 
